@@ -5,7 +5,10 @@ use crate::ensure;
 use crate::model;
 use proptest::prelude::*;
 use serde::{Deserialize, Serialize};
-use text_utils::tokenization::{BPETokenizer, BPETokenizerConfig, SpecialConfig, Tokenize};
+use text_utils::tokenization::{
+    train_bpe, BPETokenizer, BPETokenizerConfig, MergeOps, SpecialConfig, Tokenize,
+};
+use text_utils::utils::SerializeMsgPack;
 
 #[derive(Debug, Clone, Serialize, Deserialize)]
 pub struct Case {
@@ -13,6 +16,10 @@ pub struct Case {
     pub text: String,
     pub max_vocab: Option<usize>,
     pub graphemes: bool,
+    /// if set, the table is not `table` but the result of train_bpe on these lines with this many
+    /// requested merges (<= 64)
+    #[serde(default)]
+    pub trained: Option<(Vec<String>, usize)>,
 }
 
 pub struct C03;
@@ -35,8 +42,8 @@ impl Prop for C03 {
     fn fuzz_decode(bytes: &[u8]) -> Option<Case> {
         crate::fuzzdec::c03(bytes)
     }
-    const RULE: &'static str = "random well-formed merge tables (<= 32 merges over 1-4 letter alphabets incl. multi-byte letters, chains, whitespace-prefixed tokens, competing entries) x texts whose words are concatenations of table tokens and letters separated by whitespace runs x max_vocab_size truncation; the token ids are compared with a naive reference BPE (rescan all adjacent pairs, lowest merge id, leftmost, repeat) per whitespace-prefixed word. Non-trivial: in some word the reference performs >= 2 merges, one of them with an already merged operand (depth >= 2). Distinct = distinct serialised case.";
-    const ESSENTIAL: &'static [&'static str] = &["depth>=2", "two_merges_in_word", "tie_same_id", "truncated"];
+    const RULE: &'static str = "random well-formed merge tables and tables produced by train_bpe on generated corpora (<= 32 / <= 40 merges over 1-4 letter alphabets incl. multi-byte letters, chains, whitespace-prefixed tokens, competing entries) x texts whose words are concatenations of table tokens and letters separated by whitespace runs x max_vocab_size truncation; the token ids are compared with a naive reference BPE (rescan all adjacent pairs, lowest merge id, leftmost, repeat) per whitespace-prefixed word. Non-trivial: in some word the reference performs >= 2 merges, one of them with an already merged operand (depth >= 2). Distinct = distinct serialised case.";
+    const ESSENTIAL: &'static [&'static str] = &["depth>=2", "two_merges_in_word", "tie_same_id", "truncated", "trained_table"];
 
     fn budget(tier: Tier) -> Budget {
         match tier {
@@ -46,7 +53,40 @@ impl Prop for C03 {
     }
 
     fn strategy(_tier: Tier, _shard: u32) -> BoxedStrategy<Case> {
-        table_strategy(32)
+        let trained = (
+            proptest::sample::select(ALPHABETS),
+            proptest::collection::vec((any::<u16>(), 1usize..=6), 4..=40),
+            1usize..=40,
+            any::<bool>(),
+        )
+            .prop_flat_map(|(alpha, picks, requested, graphemes)| {
+                let letters: Vec<String> = alpha.iter().map(|s| s.to_string()).collect();
+                // corpus words: runs of letters chosen by the picks
+                let mut words: Vec<String> = vec![];
+                for (i, (r, len)) in picks.iter().enumerate() {
+                    let mut w = String::new();
+                    for k in 0..*len {
+                        let j = ((*r as usize) >> (k * 2)).wrapping_add(i * k) % letters.len();
+                        w.push_str(&letters[j]);
+                    }
+                    words.push(w);
+                }
+                let lines: Vec<String> = words.chunks(4).map(|c| c.join(" ")).collect();
+                let pieces: Vec<String> = letters.iter().cloned().chain(words.iter().cloned()).collect();
+                let text = proptest::collection::vec(
+                    (proptest::collection::vec(proptest::sample::select(pieces), 1..=3).prop_map(|v| v.concat()), prop_oneof![4 => Just(" ".to_string()), 1 => crate::gen::ws_run(1, 2)]),
+                    0..=5,
+                )
+                .prop_map(|ws| ws.into_iter().map(|(w, s)| format!("{w}{s}")).collect::<String>());
+                text.prop_map(move |text| Case {
+                    table: Table { entries: vec![] },
+                    text,
+                    max_vocab: None,
+                    graphemes,
+                    trained: Some((lines.clone(), requested)),
+                })
+            });
+        let random = table_strategy(32)
             .prop_flat_map(|(letters, table)| {
                 let n = table.entries.len();
                 (
@@ -59,9 +99,10 @@ impl Prop for C03 {
                         text,
                         max_vocab,
                         graphemes,
+                        trained: None,
                     })
-            })
-            .boxed()
+            });
+        prop_oneof![5 => random, 1 => trained].boxed()
     }
 
     fn assumptions() -> Vec<String> {
@@ -74,7 +115,40 @@ impl Prop for C03 {
 
     fn check(c: &Case, _strict: bool) -> Outcome {
         let mut out = Outcome::new();
-        ensure!(out, c.table.is_well_formed(), "harness generated an ill-formed table");
+        let trained_table;
+        let c = if let Some((lines, requested)) = &c.trained {
+            out.label("trained_table");
+            let dir = work_dir();
+            let corpus = dir.join("c03-corpus.txt");
+            std::fs::write(&corpus, lines.join("\n") + "\n").expect("write corpus");
+            let out_file = dir.join("c03-trained.merges");
+            let r = train_bpe(&[&corpus], 320, 64 - (*requested).min(64), &out_file, None, None, 0, false);
+            install_panic_hook();
+            if let Err(e) = r {
+                out.fail(format!("train_bpe failed: {e}"));
+                return out;
+            }
+            let Ok(ops) = MergeOps::load(&out_file) else {
+                out.fail("trained table does not load");
+                return out;
+            };
+            let mut entries: Vec<Option<Vec<u8>>> = vec![None; ops.len()];
+            for (b, id) in &ops {
+                if (*id as usize) < entries.len() {
+                    entries[*id as usize] = Some(b.clone());
+                }
+            }
+            if entries.iter().any(|e| e.is_none()) {
+                // ids are not 0..n-1: that is C19's subject, nothing to compare here
+                out.discard = Some("trained_table_ids_not_contiguous");
+                return out;
+            }
+            trained_table = Case { table: Table { entries: entries.into_iter().flatten().collect() }, trained: None, ..c.clone() };
+            &trained_table
+        } else {
+            c
+        };
+        ensure!(out, c.table.is_well_formed(), "merge table is not well-formed");
         let path = c.table.save("c03.merges");
         let special = SpecialConfig::default();
         let nspecial = special.tokens.len();
